@@ -251,6 +251,22 @@ PROPS = {
         "rule": "cases = transitions of the bounded TLC instance replayed against the contracts; distinct = distinct (membership history state, action) pairs",
         "assumptions": ["soroban-env-host test mode implements on-chain semantics", "bounds: 2 candidate operators, 2 owners, 2 probe targets, 4 return-value kinds"],
     },
+    "C15": {
+        "title": "Owner-only upgrades, one migration per upgrade, all-or-nothing Upgrader",
+        "policy": {"guards": ["role_auth", "upgrade_auth", "migrate_auth", "window", "version_differs", "version_matches_after", "migrate_typed", "no_migrate"],
+                   "fields": ["version", "data"], "events": ["upgraded"], "rets": []},
+        "jobs": [
+            {"kind": "graph", "spec": "MC_C15", "cfg": "MC_C15_%s" % t, "module": "Upgrade", "evkinds": ["upgraded", "ownership_transferred"],
+             "need": ["Upgrade/ok", "Upgrade/role_auth", "Migrate/ok", "Migrate/role_auth", "UpgraderUpgrade/ok",
+                      "UpgraderUpgrade/version_differs", "UpgraderUpgrade/version_matches_after", "UpgraderUpgrade/upgrade_auth",
+                      "UpgraderUpgrade/migrate_auth", "UpgraderUpgrade/migrate_typed"] + ([] if t == "dummy" else ["Migrate/window", "HookOpenWindow/ok"])}
+            for t in ["gateway", "gas", "operators", "its", "token", "dummy"]
+        ],
+        "level_text": "TLC proves owner-only upgrade, window opened by upgrade, migration only by the owner inside the window, closing it (the same migration is refused in the post-state) and announcing the version, and Upgrader atomicity (unchanged, or new code at the requested different version with the window closed) on every transition of six finite instances (one per target contract); every transition is executed against the natively registered contract from /repo, the real Upgrader and the repository's wasm fixtures.  The source's derived migrate is reached through the verif-hooks window opener.",
+        "rule": "cases = transitions of the bounded TLC instances (one per target contract) replayed against the contracts; distinct = distinct (abstract pre-state, action) pairs",
+        "assumptions": ["soroban-env-host test mode implements on-chain semantics incl. update_current_contract_wasm", "upgrade destinations are the repository's pinned wasm fixtures (no wasm32 target offline); after a swap the fixture's code runs",
+                        "the migration window flag is not observable; it is decided through later migrate outcomes"],
+    },
 }
 
 NOT_YET = {}
